@@ -157,6 +157,15 @@ func jsonPaths(v any, prefix string, out *[]string) {
 	}
 }
 
+// swap: a valid value of the same domain that does not fit the rest of the message
+var swapValues = map[string]string{
+	"loadControlLimitListData": "loadControlLimitDescriptionListData", "loadControlLimitDescriptionListData": "loadControlLimitListData",
+	"nodeManagementDetailedDiscoveryData": "nodeManagementUseCaseData", "nodeManagementUseCaseData": "nodeManagementDetailedDiscoveryData",
+	"read": "write", "write": "notify", "notify": "reply", "reply": "result", "result": "call", "call": "read",
+	"LoadControl": "DeviceConfiguration", "DeviceConfiguration": "LoadControl", "NodeManagement": "LoadControl",
+	"client": "server", "server": "client", "special": "server", "added": "removed", "removed": "modified",
+}
+
 func mutateAt(root any, path string, op string) any {
 	parts := strings.Split(strings.TrimPrefix(path, "/"), "/")
 	var rec func(v any, i int) any
@@ -201,6 +210,20 @@ func mutateAt(root any, path string, op string) any {
 					t[key] = append(cur.([]any), cur.([]any)...)
 				default:
 					t[key] = map[string]any{"bogus": 1}
+				}
+			case "swap":
+				// another plausible value of the same domain
+				switch c := cur.(type) {
+				case string:
+					if o, ok := swapValues[c]; ok {
+						t[key] = o
+					} else {
+						t[key] = c + "X"
+					}
+				case float64:
+					t[key] = c + 1
+				case bool:
+					t[key] = !c
 				}
 			case "wrongkind":
 				switch cur.(type) {
@@ -264,6 +287,20 @@ func (s *System) robustPhase(phase string) {
 	s.step(Action{"a": "sub", "p": "p2", "c": "c11", "s": "S1", "ft": "LoadControl", "ack": false})
 	s.step(Action{"a": "lsub", "k": "K1", "p": "p1", "r": "s14"})
 	s.step(Action{"a": "setdata", "s": "S1", "fn": "limit", "v": float64(1)})
+	if phase == "reconnected" {
+		// the first peer had a write pending approval, lost its connection and is back (same SKI): connected, discovered,
+		// bound and subscribed again
+		_ = s.lfeat["S1"].AddWriteApprovalCallback(func(msg *api.Message) {})
+		s.lfeat["S1"].SetWriteApprovalTimeout(time.Hour)
+		p := s.peers["p1"]
+		s.exec(Action{"a": "write", "p": "p1", "c": "c11", "s": "S1", "fn": "limit", "v": float64(2), "ack": true}, p, &TraceLine{})
+		s.step(Action{"a": "disconnect", "p": "p1"})
+		s.step(Action{"a": "connect", "p": "p1"})
+		s.step(Action{"a": "discover", "p": "p1", "ents": []any{"1", "2"}, "ack": false})
+		s.step(Action{"a": "bind", "p": "p1", "c": "c11", "s": "S1", "ft": "LoadControl", "ack": false})
+		s.step(Action{"a": "sub", "p": "p1", "c": "c11", "s": "S1", "ft": "LoadControl", "ack": false})
+		s.step(Action{"a": "lsub", "k": "K1", "p": "p1", "r": "s14"})
+	}
 	if phase == "pending" {
 		_ = s.lfeat["S1"].AddWriteApprovalCallback(func(msg *api.Message) {})
 		s.lfeat["S1"].SetWriteApprovalTimeout(time.Hour)
